@@ -931,7 +931,13 @@ def run(ctx: Ctx) -> None:
                 "additionally all its valid cuts, and per order one cut of every output, as successive handles inside ONE "
                 "construct_dag block; every description additionally as a pipeline with a user cache (cache_type simple/lru, "
                 "first/last/all functions cached) called once before and then again, same inputs, inside a construct_dag block "
-                "(the recorded graph mixes nodes created before the block with new ones); every description in every order "
+                "(the recorded graph mixes nodes created before the block with new ones - cache_type simple only: with lru / "
+                "hybrid the block works on its own cache and the graph must be complete); every description additionally in a "
+                "history whose construct_dag() block is left through an exception (of a call refused inside it: keyword dropped / "
+                "output supplied / surplus keyword | of the body itself, handle evaluated and dropped | of a user function that "
+                "evaluate() let through | of the body, handle still unevaluated), followed outside any block by the eager twin, "
+                "the same call on the same or a freshly built lazy pipeline, and a new block or another output; every begin / "
+                "lbegin / block exit carries what lazy.task_graph() reports; every description in every order "
                 "additionally with a fault plan on its user functions (one function raising on its first invocation / on every "
                 "invocation, all raising on their first; plan and variant rotate with the case): three successive eager calls "
                 "next to three successive evaluate() calls on one handle | a handle abandoned after an evaluate() that raised, "
@@ -947,7 +953,11 @@ def run(ctx: Ctx) -> None:
                        "node identity in the task graph is read off _LazyFunction.func (the pipeline's PipeFunc wrapping the "
                        "harness function, or its output_picker)",
                        "user caches only in the before-the-block/inside-the-block histories (same inputs); other lazy x cache "
-                       "interaction belongs to C09",
+                       "interaction belongs to C09; in-memory kinds only (simple, lru, hybrid - no disk cache)",
+                       "with a user cache of the kind the block itself keeps (simple) tasks created before the block may be "
+                       "missing from the recorded graph (stated don't-care, TaskGraphOKFor); with every other kind the graph "
+                       "must be complete",
+                       "whether a construct_dag() block is active is observed through pipefunc.lazy.task_graph()",
                        "faults: a harness function raises HarnessError('fault in <name>') on its first invocation or on every one "
                        "(build.py failure injection); with a user cache only pipelines whose functions are all cached, outside "
                        "construct_dag() (a cached consumer of an UNCACHED producer keeps its own producer node next to the one a "
@@ -999,8 +1009,10 @@ def run(ctx: Ctx) -> None:
             mc("LBSpec N=2 rich, all keyword sets, 3 evaluates", "b2r", 3, n=2, rich="TRUE", maxev=3, allkw="TRUE", maxh=1)
             mc("LBSpec N=2 rich, valid cuts, 2 handles per construct_dag block", "b2s", 3, n=2, rich="TRUE", maxev=2,
                allkw="FALSE", maxh=2)
-            mc("LBSpec N=2 rich, valid cuts, user cache (first / all functions flagged; simple and lru)", "b2c", 3, ucache="TRUE",
-               ckinds='{"simple", "lru"}', n=2, rich="TRUE", maxev=2, allkw="FALSE", maxh=1)
+            mc("LBSpec N=2 rich, valid cuts, user cache (first / all functions flagged)", "b2c", 3, ucache="TRUE",
+               n=2, rich="TRUE", maxev=2, allkw="FALSE", maxh=1)
+            mc("LBSpec N=2, valid cuts, user cache of a kind the block replaces (lru)", "b2l", 3, ucache="TRUE", ckinds='{"lru"}',
+               n=2, rich="FALSE", maxev=2, allkw="FALSE", maxh=1)
             mc("LBSpec N=2, all keyword sets (refused calls), 2 handles per construct_dag block, pipeline() convention", "b2x", 3,
                modes='{"call"}', n=2, rich="FALSE", maxev=2, allkw="TRUE", maxh=2)
             mc("LBSpec N=3, valid cuts, pipeline()/run()/func() convention", "b3", 2, heap="2g", nshards=3, modes='{"call"}',
